@@ -339,15 +339,34 @@ def gen_history(rng, ctx):
         elif r < 0.88:
             if not swarm['reconf']:
                 continue
-            for _ in range(rng.randint(1, 3)):
+            if rng.random() < 0.35:
+                # the documented recipe for a custom configuration: clear,
+                # own rules / own dictionary, then (some of) the library's
+                # own dictionaries in some order
+                ops_.append({'op': 'lex_clear'})
+                ops_.append({'op': 'lex_set_regex', 'which': 'extended'})
+                stock = ['KEYWORDS_COMMON', 'KEYWORDS_ORACLE',
+                         'KEYWORDS_PLPGSQL', 'KEYWORDS_HQL', 'KEYWORDS']
+                rng.shuffle(stock)
+                seq = [{'op': 'lex_add_stock', 'which': w}
+                       for w in stock[:rng.randint(1, 4)]]
+                seq.insert(rng.randrange(len(seq) + 1), {'op': 'lex_add_kw'})
+                ops_.extend(seq)
+            for _ in range(rng.randint(0 if ops_ and ops_[-1]['op'].startswith(
+                    'lex_') else 1, 3)):
                 k = rng.random()
-                if k < 0.35:
+                if k < 0.3:
                     ops_.append({'op': 'lex_clear'})
-                elif k < 0.65:
+                elif k < 0.55:
                     ops_.append({'op': 'lex_set_regex',
                                  'which': rng.choice(['subset', 'extended'])})
-                else:
+                elif k < 0.8:
                     ops_.append({'op': 'lex_add_kw'})
+                else:
+                    ops_.append({'op': 'lex_add_stock',
+                                 'which': rng.choice(
+                                     ['KEYWORDS', 'KEYWORDS_COMMON',
+                                      'KEYWORDS_ORACLE', 'KEYWORDS_MYSQL'])})
             for _ in range(rng.randint(0, 2)):
                 ops_.append(pal.call(rng))
             if open_handles and rng.random() < 0.4:
@@ -584,6 +603,7 @@ def run(spec, refs):
 
 
 PERTURBING = {'gen_close', 'gen_throw', 'gen_drop', 'lex_clear',
+              'lex_add_stock',
               'lex_set_regex', 'lex_add_kw', 'lex_default_init', 'mut_tree',
               'mut_newtype', 're_purge', 'lex_separate'}
 
